@@ -437,6 +437,7 @@ type Contract struct {
 	Trusted   bool // in-repo function whose body is not verified (listed)
 	File      string
 	Requires  []Clause
+	Domain    []Clause // domain of the functional clauses: assumed only when proving them, never required of callers
 	Ensures   []Clause
 	Assigns   []string // raw place strings; nil = unspecified
 	HasAssign bool
@@ -611,7 +612,7 @@ func (S *Specs) LoadFile(path string, extern bool) error {
 				return fail(fmt.Errorf("prop outside func"))
 			}
 			cur.Props = append(cur.Props, strings.Fields(strings.ReplaceAll(rest, ",", " "))...)
-		case "requires", "ensures":
+		case "requires", "ensures", "domain":
 			if cur == nil {
 				return fail(fmt.Errorf("%s outside func", kw))
 			}
@@ -619,9 +620,12 @@ func (S *Specs) LoadFile(path string, extern bool) error {
 			if err != nil {
 				return fail(err)
 			}
-			if kw == "requires" {
+			switch kw {
+			case "requires":
 				cur.Requires = append(cur.Requires, c)
-			} else {
+			case "domain":
+				cur.Domain = append(cur.Domain, c)
+			default:
 				cur.Ensures = append(cur.Ensures, c)
 			}
 		case "assigns":
